@@ -10,7 +10,7 @@ import JubakoModel.Lemmas.Search
 import JubakoModel.Lemmas.Order
 import JubakoModel.Lemmas.DirFile
 import JubakoModel.Lemmas.FuncsSearch
-import JubakoModel.Lemmas.FuncsDir
+import JubakoModel.Lemmas.FuncsOrder
 
 namespace Jubako
 
